@@ -335,8 +335,46 @@ pub fn gen_c17(rng: &mut Rng, tier: Tier) -> C17Plan {
     let nthreads = 2 + rng.usize(3);
     let nsub = 1 + rng.usize(3);
     let subplans: Vec<Session> = (0..nsub).map(|_| gen_session(rng, &MIX_SUB)).collect();
+    // A "sibling" of sub-plan 0: same sizes, temporal references, picture types,
+    // macroblock structure and vectors, but different sample content (other
+    // INTRADC values).  Any cache or scratch state keyed by header fields instead
+    // of by instance shows up as a difference between an instance run alone and
+    // the same instance interleaved with its sibling.
+    let mut subplans = subplans;
+    let mut sibling: Option<usize> = None;
+    if rng.chance(2, 3) {
+        let mut sib = subplans[0].clone();
+        let mut changed = false;
+        for p in sib.pics.iter_mut() {
+            if let Some(spec) = p.spec.as_mut() {
+                for mb in spec.mbs.iter_mut() {
+                    if let crate::spec::MbSpec::Coded { kind, blocks, .. } = mb {
+                        if crate::spec::kind_is_intra(*kind) {
+                            for b in blocks.iter_mut() {
+                                let mut v = rng.byte();
+                                if v == 0 || v == 128 {
+                                    v = 77;
+                                }
+                                b.dc = v;
+                                changed = true;
+                            }
+                        }
+                    }
+                }
+                p.rebuild();
+            }
+        }
+        if changed {
+            sib.note = format!("sibling of sub-plan 0: {}", sib.note);
+            subplans.push(sib);
+            sibling = Some(subplans.len() - 1);
+        }
+    }
     // instances: sub-plan 0 is replicated 2-3 times, the others once or twice
     let mut instances = vec![0; 2 + rng.usize(2)];
+    if let Some(sb) = sibling {
+        instances.insert(1, sb); // instance 1 is the sibling
+    }
     for s in 1..nsub {
         instances.push(s);
         if rng.chance(1, 4) {
@@ -347,7 +385,12 @@ pub fn gen_c17(rng: &mut Rng, tier: Tier) -> C17Plan {
     instances.truncate(max_inst);
     // place instances on threads (at least the first two replicas on different threads)
     let mut owner: Vec<usize> = (0..instances.len()).map(|i| if i < 2 { i % nthreads } else { rng.usize(nthreads) }).collect();
-    if rng.chance(1, 8) {
+    if sibling.is_some() {
+        // the sibling shares a thread with instance 0 half of the time
+        if rng.bool() {
+            owner[1] = owner[0];
+        }
+    } else if rng.chance(1, 8) {
         owner[1] = owner[0]; // replicas on the same thread, interleaved call by call
     }
     // per-thread step lists: random merge of its instances' event sequences
@@ -386,7 +429,7 @@ pub fn gen_c17(rng: &mut Rng, tier: Tier) -> C17Plan {
         })
         .collect();
     C17Plan {
-        note: format!("{nthreads} threads, {} instances ({} sub-plans), {} schedule slices (style {style})", instances.len(), nsub, schedule.len()),
+        note: format!("{nthreads} threads, {} instances ({} sub-plans{}), {} schedule slices (style {style})", instances.len(), subplans.len(), if sibling.is_some() { ", one a content-only sibling of sub-plan 0" } else { "" }, schedule.len()),
         subplans,
         instances,
         threads,
@@ -402,8 +445,8 @@ impl Property for C17 {
     const RULE: &'static str = "seeded worlds of 2-4 caller threads owning 3-8 decoder instances (at least two replicas fed the same history, the others unrelated histories including corrupted inputs and source faults that make their decoder fail), executed under the simulator's baton scheduler: one thread runs at a time, pre-emption points are every source read and every call boundary, the successor comes from the plan's schedule. Oracles: replicas agree; every instance's history digest (every result and every state digest) equals the digest of the same history run alone and sequentially; the same runs executed in two further fresh processes give identical digests (per-process hash seeds, addresses, lazy statics first used from a non-main thread). evaluations = decode calls made under the scheduler. A case is non-trivial if the schedule actually switched threads while decode calls were in flight; distinct by (context-switch sequence hash, thread step lists).";
     fn runs(tier: Tier) -> u64 {
         match tier {
-            Tier::Quick => 40_000,
-            Tier::Thorough => 1_000_000,
+            Tier::Quick => 30_000,
+            Tier::Thorough => 800_000,
         }
     }
     fn generate(rng: &mut Rng, tier: Tier) -> C17Plan {
